@@ -156,13 +156,61 @@ def monitor_drain(case, ev):
     return None
 
 
+def monitor_tail(case, ev):
+    """Fair tail of a busy history (harness generateBusy): no control traffic ever, so
+    intake is never paused.  From tail_start on no new request arrives; every round is
+    one tick with the served path's two out-buffers emptied and every forwarded request
+    answered.  By rdma_request_progress / rdma_response_progress each such round takes
+    at least one queued request and completes at least one delivered response of the
+    served path, whatever the OTHER path holds; so after 2*(unforwarded+pending)+4
+    complete rounds every accepted request of the served path must have been answered."""
+    if case.get('hostile') or not case.get('busy') or 'tail_start' not in case:
+        return None
+    if any(e.get('crash') for e in ev) or any(e['e'] == 'd' and e['port'] == 'CT' for e in ev):
+        return None
+    t0 = case['tail_start']
+    qport, fport = ('RI', 'RO') if case.get('serve') == 'inside' else ('DO', 'DI')
+    if any(e['e'] == 'd' and e['port'] in ('RI', 'DO') for e in ev[t0:]):
+        return None
+    acc = [e['msg'] for e in ev if e['e'] == 'd' and e['port'] == qport and e.get('acc')]
+    fwd0 = [e['got']['id'] for e in ev[:t0] if e['e'] == 'r' and e['port'] == fport and e.get('got')]
+    rsp0 = {e['msg']['rspto'] for e in ev[:t0] if e['e'] == 'd' and e['port'] == fport and e.get('acc')}
+    pending = sum(1 for f in fwd0 if f not in rsp0)
+    need = 2 * ((len(acc) - len(fwd0)) + pending) + 4
+    # complete rounds of the tail
+    ticks = [i for i in range(t0, len(ev)) if ev[i]['e'] == 'tick'] + [len(ev)]
+    rounds = 0
+    for a, b in zip(ticks, ticks[1:]):
+        seg = ev[a + 1:b]
+        empt_f = any(e['e'] == 'r' and e['port'] == fport and e.get('none') for e in seg)
+        empt_q = any(e['e'] == 'r' and e['port'] == qport and e.get('none') for e in seg)
+        got = [e['got']['id'] for e in ev[:b] if e['e'] == 'r' and e['port'] == fport and e.get('got')]
+        tried = {e['msg']['rspto'] for e in ev[:b] if e['e'] == 'd' and e['port'] == fport}
+        if empt_f and empt_q and all(g in tried for g in got):
+            rounds += 1
+    if rounds < need:
+        return None
+    answered = {e['got']['rspto'] for e in ev if e['e'] == 'r' and e['port'] == qport and e.get('got')}
+    lost = [m['id'] for m in acc if m['id'] not in answered]
+    if lost:
+        fwd = [e['got']['id'] for e in ev if e['e'] == 'r' and e['port'] == fport and e.get('got')]
+        other_f = 'DI' if fport == 'RO' else 'RO'
+        held = len(in_flight(ev, len(ev))) - sum(1 for p, _ in in_flight(ev, len(ev)) if p == fport)
+        return ('%s path: request %s was accepted but never %s although its path was served fairly for %d rounds (needed %d) '
+                'while the other path held %d unanswered transactions (buffer size %d): %d accepted, %d forwarded, %d answered'
+                % (case.get('serve'), lost[0], 'forwarded' if len(fwd) < len(acc) else 'answered', rounds, need, held, case['buf'],
+                   len(acc), len(fwd), len(answered & {m['id'] for m in acc})))
+    return None
+
+
 def monitor(case):
     ev = case['events']
     if any(e.get('crash') for e in ev) and not case.get('hostile'):
         return 'the RDMA engine panicked on protocol-respecting traffic'
     return (monitor_path(case, ev, 'RI', 'RO', 'remote', BASE_IN, 'inside->outside')
             or monitor_path(case, ev, 'DO', 'DI', 'local', BASE_OUT, 'outside->inside')
-            or monitor_drain(case, ev))
+            or monitor_drain(case, ev)
+            or monitor_tail(case, ev))
 
 
 def env_ok(case):
@@ -214,6 +262,9 @@ def strip(case):
     c['hostile'] = case.get('hostile', False)
     if case.get('lazy'):
         c['lazy'] = True
+    for k in ('busy', 'serve', 'tail_start'):
+        if k in case:
+            c[k] = case[k]
     c['events'] = [{'e': e['e'], **({'port': e['port']} if 'port' in e else {}),
                     **({'msg': e['msg']} if 'msg' in e else {})} for e in case['events']]
     return c
@@ -532,7 +583,7 @@ def main(argv):
         'evaluations': len(cases) + len(dcases) + len(scases) + len(runs),
         'distinct_nontrivial': len({vlib.case_hash(strip(c)) for c in cases if nontrivial(c)}),
         'rule': 'RDMA: random port-level histories (60-260 events; buffer sizes {1,2,3,4,128} x per-cycle widths 1-3; banked tables with '
-                '2-4 remote and 1-4 local modules); every 5th history keeps the 1-2 entry out-buffer of the control port full (DrainReqs without waiting for acks, rare pick-up) while traffic from outside stays in flight; every 4th history hostile (unknown/duplicate RspTo, wrong message kind, empty/self source, '
+                '2-4 remote and 1-4 local modules); every 5th history starves one path of responses (buffer 2-4, transactions pile up beyond the buffer size) and ends with a fair tail serving the other path; every 5th history keeps the 1-2 entry out-buffer of the control port full (DrainReqs without waiting for acks, rare pick-up) while traffic from outside stays in flight; every 4th history hostile (unknown/duplicate RspTo, wrong message kind, empty/self source, '
                 'table miss, restart without drain / before the acknowledgement); non-trivial = at least one answer reached a requester on each path. '
                 'Distribute: page sizes 2^{6,10,12,16}, 0-9 GPUs, page counts around multiples of the GPU count, fewer pages than GPUs, misaligned. '
                 'Split: 1-6 GPUs with CU counts from {0,1,2,3,4,36,64,120}, 1-3 dimensional grids incl. partial last work-groups, fewer '
@@ -542,6 +593,8 @@ def main(argv):
         'rdma_answers_observed': sum(1 for c in cases for e in c['events'] if e['e'] == 'r' and e['port'] in ('RI', 'DO') and e.get('got')),
         'rdma_drain_acks_observed': sum(1 for c in cases for e in c['events'] if e['e'] == 'r' and e['port'] == 'CT' and e.get('got') and e['got']['flags'] == FL_DRAIN_RSP),
         'rdma_hostile_cases': sum(1 for c in cases if c.get('hostile')),
+        'rdma_busy_fair_tail_cases': sum(1 for c in cases if c.get('busy')),
+        'rdma_busy_max_starved_transactions': max([len(in_flight(c['events'], len(c['events']))) for c in cases if c.get('busy')] or [0]),
         'rdma_ctrl_backpressure_cases': sum(1 for c in cases if c.get('lazy')),
         'rdma_drain_acks_under_backpressure': sum(1 for c in cases if c.get('lazy') for e in c['events'] if e['e'] == 'r' and e.get('port') == 'CT' and e.get('got') and e['got']['flags'] == FL_DRAIN_RSP),
         'rdma_crashes_observed': sum(1 for c in cases if any(e.get('crash') for e in c['events'])),
@@ -581,7 +634,7 @@ def main(argv):
     if bad:
         i, msg = bad[0]
         c = cases[i]
-        small = vlib.ddmin(c['events'], lambda evs: fails_monitor(evs, c))
+        small = c['events'] if c.get('busy') else vlib.ddmin(c['events'], lambda evs: fails_monitor(evs, c))
         c2 = strip(c)
         c2['events'] = [{'e': e['e'], **({'port': e['port']} if 'port' in e else {}), **({'msg': e['msg']} if 'msg' in e else {})} for e in small]
         out, _ = run_harness(binary, 'rdma', cases=[c2])
